@@ -1426,6 +1426,57 @@ def run(only=None):
         s.done()
         rep.log(f"arbitrary_bits: {decl} cases, {s.wall}s")
 
+    # ---- 5. typed views of one rate block, reached by converting an earlier view ------------------------
+    if want("typed_view_conversions"):
+        s = rep.sub("typed_view_conversions",
+                    "3 rates x {0, ~0, all vectors of weight 1 and complements, walking bytes, 4 seed words} x all ordered pairs (T1, T2) of the typed "
+                    "views (+ the untyped from_bits view as T1): from_bits_typed(bits, T1).convert(T2) has the bits, the public fields and the "
+                    "verdicts of from_bits_typed(bits, T2); converting there and back gives the first view again")
+
+        def w_conv(task):
+            rn, vecs = task
+            cls, T, L = RATES[rn]
+            acc = Acc()
+            types = list(T)
+            for bits01 in vecs:
+                for t1 in [None] + types:
+                    try:
+                        first = cls.from_bits(bitarray(bits01)) if t1 is None else cls.from_bits_typed(bitarray(bits01), t1)
+                    except Exception:  # noqa: BLE001  (a view that does not exist for this block: nothing to convert)
+                        continue
+                    for t2 in types:
+                        case = {"rate": rn, "bits": hex(int(bits01, 2)), "first_view": getattr(t1, "name", "from_bits"), "converted_to": t2.name}
+                        try:
+                            direct = cls.from_bits_typed(bitarray(bits01), t2)
+                        except Exception:  # noqa: BLE001
+                            continue
+                        try:
+                            conv = first.convert(t2)
+                            want_f = {k: repr(v) for k, v in vars(direct).items() if not k.startswith("_")}
+                            got_f = {k: repr(v) for k, v in vars(conv).items() if not k.startswith("_")}
+                            if conv.as_bits() != direct.as_bits():
+                                acc.violation(f"{rn}:converted_view_serialises_differently", {**case, "converted": conv.as_bits().to01(), "direct": direct.as_bits().to01()},
+                                              "a rate block decoded as T1 and converted to T2 serialises to other bits than the same block decoded as T2")
+                            elif got_f != want_f:
+                                bad = sorted(k for k in want_f if got_f.get(k) != want_f[k])
+                                acc.violation(f"{rn}:converted_view_fields_differ:" + "+".join(bad), {**case, "converted": {k: got_f.get(k) for k in bad}, "direct": {k: want_f[k] for k in bad}})
+                            if t1 is not None:
+                                back = conv.convert(t1)
+                                if back.as_bits() != first.as_bits():
+                                    acc.violation(f"{rn}:conversion_there_and_back_differs", case)
+                        except Exception as e:  # noqa: BLE001
+                            acc.violation(f"{rn}:exception_convert:" + exc_sig(e), case, repr(e))
+                        acc.case(nontrivial=True, calls=4, outcome=(rn, t2.name), sample=case if len(acc.samples) < 1 else None)
+            return acc
+
+        tasks = []
+        for rn, (cls, T, L) in RATES.items():
+            vecs = spaces.small_scope_messages(L, 1, extra=[env.det_bits(f"c03-conv-{rn}-{i}", L) for i in range(4)] + [("11111111" + "00000000") * (L // 16), ("10100101") * (L // 8)])
+            tasks += [(rn, ch) for ch in par.split_list(vecs, 8)]
+        for acc in par.pmap(w_conv, tasks, nw):
+            s.merge(acc)
+        s.done()
+
     rep.bounds = {
         "elements": "all 2^w values, w <= 8; 10 SYNC constants + 480 single-bit neighbours",
         "pdu_fields": "full products <= %d else one-at-a-time + all pairs over %s alphabets on %s bases"
